@@ -2,7 +2,10 @@ module verifharness
 
 go 1.25.0
 
-require github.com/open2b/scriggo v0.0.0
+require (
+	github.com/open2b/scriggo v0.0.0
+	github.com/yuin/goldmark v1.7.16
+)
 
 require gopkg.in/yaml.v3 v3.0.1 // indirect
 
